@@ -212,7 +212,7 @@ def _weight(ctx, geo, g, ax, fidx, i0, x):
 
 def scenarios(tier):
     T = []
-    D = {1: [[2], [3]], 2: [[2, 2]], 3: [[2, 2, 2]]}
+    D = {1: [[2], [3]], 2: [[2, 2], [2, 3]], 3: [[2, 2, 2], [1, 2, 3]]}
     if tier == 'thorough':
         D = {1: [[1], [2], [3], [4]], 2: [[2, 2], [3, 2], [1, 2]], 3: [[2, 2, 2], [2, 1, 2]]}
     for g in scen.ALL:
